@@ -757,6 +757,19 @@ def _http_request(eng, st, args, kwargs, line):
 
 
 lib.OPAQUE_ATTR[('HttpResp', 'status_code')] = lambda eng, st, o: V(INT, resp_status(o.t))
+lib.OPAQUE_ATTR[('Http', 'closed')] = lambda eng, st, o: vbool(
+    z3.Function('http_session_closed', z3.IntSort(), z3.IntSort(), z3.BoolSort())(
+        o.t, st.ghost['$alloc'].t))        # aiohttp.ClientSession.closed (changes over time)
+
+
+def _http_close(eng, st, recv, args, kwargs, line):
+    s2 = st.copy()
+    advance_clock(eng, s2, None)
+    eng.havoc_alloc(s2)
+    yield s2, VNONE
+
+
+LIBM[('opaque:Http', 'close')] = _http_close
 lib.OPAQUE_ATTR[('HttpResp', 'status')] = lambda eng, st, o: V(INT, resp_status(o.t))     # aiohttp
 LIBM[('opaque:WS', 'send_binary')] = lambda *a: _ws_send(*a)
 LIBM[('opaque:WS', 'send_bytes')] = lambda *a: _ws_send(*a)       # aiohttp ClientWebSocketResponse
